@@ -90,22 +90,32 @@ class FaultBuilder(ref.Builder):
         return super().build(n)
 
 
-def expect_error(sess, what, fn, oracle='I12.1', survey=False):
+def expect_error(sess, what, fn, oracle='I12.1', survey=False, own_type=True):
     """The faulty operation must end in an exception and yield no number."""
     ctx = sess.ctx
     try:
         out = fn()
         if survey:
             ctx.count('survey:deep position accepted (undecided clause)')
+            ctx.count(f'surveyd:{what.split(" planted")[0][:28]}|{what.rsplit("via ", 1)[-1]}|{what.split("(under ")[-1].split(")")[0]}|ACCEPTED')
             return False, False, None
     except Exception as e:
         if survey:
             ctx.count('survey:deep position refused by ' + type(e).__name__)
+            ctx.count(f'surveyd:{what.split(" planted")[0][:28]}|{what.rsplit("via ", 1)[-1]}|{what.split("(under ")[-1].split(")")[0]}|{type(e).__name__}')
+        if own_type:
+            # clause (a): the library's own error type and an explanatory message, wherever the fault sits
+            from biogeme.exceptions import BiogemeError
+            from ..core import _classify_exception as _ce
+            if _ce(e)[0] != 'harness' and (not isinstance(e, BiogemeError) or len(str(e).strip()) < 10):
+                ctx.fail('I12.type', f'{what}: refused with {type(e).__name__}: {str(e)[:160]!r} instead of the '
+                                     f"library's own error type with an explanatory message")
         from ..core import _classify_exception
         where, text = _classify_exception(e)
         if where == 'harness':
             raise
         ctx.count('fault_refused:' + type(e).__name__)
+        ctx.count(f'refused_as:{what.split(" planted")[0].split(":")[0][:34]}:{type(e).__name__}')
         engine = ENGINE_MARK in str(e) or type(e).__name__ == 'RuntimeError'
         return True, engine, e
     ctx.fail(oracle, f'{what}: accepted and produced {str(out)[:120]!r}')
@@ -198,15 +208,7 @@ def apply_fault(sess, a):
 
     pos = positions(base)
     path = pos[salt % len(pos)]
-    survey = False
-    if kind in ('absent_column', 'dup_name', 'draws_outside', 'rv_outside', 'bad_choice_key', 'bad_avail_keys'):
-        # decided clause (a'): the faulty element is evaluated (planted at the root). Deeper positions
-        # (branches that may not be evaluated, operands of comparisons) belong to the clause that is NOT
-        # decided here - they are only surveyed: either outcome is recorded, none is a verdict.
-        if salt % 10 < 7:
-            path = ()
-        else:
-            survey = True
+    survey = False   # every position is decided since the audit fixes (DESIGN section 11, F6 family)
     under = 'root'
     for cut in range(len(path) - 1, -1, -1):
         node = get_at(base, path[:cut])
@@ -316,6 +318,45 @@ def after_error(sess, engine, what):
         ctx.probe('python-level refusal')
 
 
+def logit_audit_columns(ast, pool, acc=None, seen=None):
+    """Columns that the audit of the logit nodes of a formula evaluates on EVERY row (choice and
+    availabilities), wherever the logit sits."""
+    acc = set() if acc is None else acc
+    seen = set() if seen is None else seen
+    if not isinstance(ast, list) or not ast or not isinstance(ast[0], str):
+        return acc
+    k = ast[0]
+    if k == 'ref':
+        if ast[1] not in seen:
+            seen.add(ast[1])
+            logit_audit_columns(pool[ast[1]], pool, acc, seen)
+        return acc
+    if k in ('loglogit', 'logit'):
+        names = ref.collect(ast[3], pool)['var']
+        if ast[2] is not None:
+            for v in ast[2].values():
+                names |= ref.collect(v, pool)['var']
+        acc |= names
+        for v in ast[1].values():
+            logit_audit_columns(v, pool, acc, seen)
+        return acc
+    if k == 'elem':
+        for v in ast[1].values():
+            logit_audit_columns(v, pool, acc, seen)
+        logit_audit_columns(ast[2], pool, acc, seen)
+    elif k == 'condsum':
+        for c, t in ast[1]:
+            logit_audit_columns(c, pool, acc, seen)
+            logit_audit_columns(t, pool, acc, seen)
+    elif k == 'multsum':
+        for t in ast[1]:
+            logit_audit_columns(t, pool, acc, seen)
+    else:
+        for c in ast[1:]:
+            logit_audit_columns(c, pool, acc, seen)
+    return acc
+
+
 def missing(sess, kind, fi, dbi, salt, entry):
     """The declared missing-data code in a cell the formula reads / does not read for that row."""
     ctx = sess.ctx
@@ -384,6 +425,13 @@ def missing(sess, kind, fi, dbi, salt, entry):
             where, text = _classify_exception(ex_)
             if where == 'harness':
                 raise
+            if col in logit_audit_columns(ast, sess.pool):
+                # known finding F17: the audit of a logit evaluates its choice and availabilities on every row
+                ctx.violate('I12.3a', f'{what}: the formula does not read that cell for that observation (the logit sits '
+                                      f'in a branch that is not taken), but the audit of the logit evaluates column {col} '
+                                      f'on every row and the model is refused')
+                after_error(sess, True, what)
+                return
             ctx.fail('I12.3u', f'{what}: the formula does not read that cell, but the evaluation was refused: '
                                f'{type(ex_).__name__}: {str(ex_)[:200]}')
         sess.cmp(f'{what}: likelihood', [v], [sum(want)], oracle='I12.3u')
@@ -416,7 +464,7 @@ def missing(sess, kind, fi, dbi, salt, entry):
     x = [betas[n] for n in b.free_beta_names]
     if entry == 'biogeme' or entry == 'derivatives':
         ok, engine, err = expect_error(sess, f'{what}: likelihood', lambda: b.calculate_likelihood(x, scaled=False),
-                                       oracle='I12.3r')
+                                       oracle='I12.3r', own_type=False)
         ctx.log('FAULT', kind, col, r, type(err).__name__)
         after_error(sess, engine, what)
     else:
